@@ -1983,11 +1983,9 @@ func (c *Certificate) CreateCRL(rand io.Reader, priv interface{}, revokedCerts [
 		return
 	}
 
+	// SM2 keys sign the raw bytes, all other keys their digest (see CreateCertificate)
 	digest := tbsCertListContents
-	switch hashFunc {
-	case SM3:
-		break
-	default:
+	if _, isSM2 := key.Public().(*sm2.PublicKey); !isSM2 {
 		h := hashFunc.New()
 		h.Write(tbsCertListContents)
 		digest = h.Sum(nil)
@@ -2263,11 +2261,9 @@ func CreateCertificateRequest(rand io.Reader, template *CertificateRequest, sign
 	}
 	tbsCSR.Raw = tbsCSRContents
 
+	// SM2 keys sign the raw bytes, all other keys their digest (see CreateCertificate)
 	digest := tbsCSRContents
-	switch template.SignatureAlgorithm {
-	case SM2WithSM3, SM2WithSHA1, SM2WithSHA256, UnknownSignatureAlgorithm:
-		break
-	default:
+	if _, isSM2 := signer.Public().(*sm2.PublicKey); !isSM2 {
 		h := hashFunc.New()
 		h.Write(tbsCSRContents)
 		digest = h.Sum(nil)
@@ -2579,11 +2575,9 @@ func CreateRevocationList(rand io.Reader, template *RevocationList, issuer *Cert
 		return nil, err
 	}
 
+	// SM2 keys sign the raw bytes, all other keys their digest (see CreateCertificate)
 	digest := tbsCertListContents
-	switch hashFunc {
-	case SM3:
-		break
-	default:
+	if _, isSM2 := priv.Public().(*sm2.PublicKey); !isSM2 {
 		h := hashFunc.New()
 		h.Write(tbsCertListContents)
 		digest = h.Sum(nil)
